@@ -10,13 +10,16 @@ from . import c07
 
 
 def load_ab(path, cfg):
-    m = c07.Affine(cfg["a0"] + 7, cfg["b0"] - 5)           # a fresh model with OTHER weights
-    m.load_state_dict(torch.load(path))
+    m = c07.Affine(cfg["a0"] + 7, cfg["b0"] - 5, tied=cfg.get("tied", False))           # a fresh model with OTHER weights
+    try:
+        m.load_state_dict(torch.load(path))
+    except Exception:          # the file does not load into an identical model
+        return []
     return [c07.rat(m.lin.weight.detach().reshape(-1)[0]), c07.rat(m.lin.bias.detach().reshape(-1)[0])]
 
 
 def run_one(s):
-    cfg = s["cfg"]
+    cfg = dict(s["cfg"], tied=(s["tid"] % 2 == 0))
     N, ck, kill = cfg["N"], cfg["ckint"], cfg["kill"]
     base = os.environ.get("VERIF_TMP") or None
     wd = tempfile.mkdtemp(prefix="c19-", dir=base)
